@@ -53,7 +53,7 @@ In(ctx, e) ==
       [] ctx = "index_assign" -> <<"xs[k] = " \o e>>
       [] ctx = "map_value" -> <<"mm[\"b\"] = " \o e>>
       [] ctx = "in_fn" -> <<"w = fn() {", "	print " \o e, "}", "w()">>
-      [] ctx = "in_method" -> <<"class W {", "	fn go(self) {", "		print " \o e, "	}", "}", "W().go()">>
+      [] ctx = "in_method" -> <<"class W {", "	fn go(self) {", "		print " \o e, "	}", "}", "wi = W()", "wi.go()">>
       [] ctx = "or_fallback" -> <<"print (io) or " \o e>>
 
 Paths == {"..", "./..", "../lib", ".", "./.", "lib/..", "a/../b", "/abs", "nosuch", "main", "./main", "lib", "./lib", "lib.ms", "lib/", "", "..ms", "~", "a b"}
@@ -70,7 +70,7 @@ Placed(pl, line) ==
       [] pl = "if" -> <<"ready = true", "if ready {", "	" \o line, "}">>
       [] pl = "while" -> <<"while true {", "	" \o line, "	break", "}">>
       [] pl = "fn" -> <<"w = fn() {", "	" \o line, "}", "w()">>
-      [] pl = "method" -> <<"class W {", "	fn go(self) {", "		" \o line, "	}", "}", "W().go()">>
+      [] pl = "method" -> <<"class W {", "	fn go(self) {", "		" \o line, "	}", "}", "wi = W()", "wi.go()">>
       [] pl = "else" -> <<"if false {", "	print 1", "} else {", "	" \o line, "}">>
       [] pl = "after_use" -> <<"print 1", line, "print 2">>
 
